@@ -106,6 +106,8 @@ type params struct {
 	name       string
 	prop       string
 	conns      [][]op // per connection, generation 0
+	conns1     [][]op // connections of generation 1 (new traffic while the backlog of generation 0 is recovered)
+	gen0Down   bool   // the upstream is down during generation 0: everything stays queued
 	gens       int    // generations (the last one is healthy and drained)
 	chunkRecs  int
 	memCap     int
@@ -228,6 +230,9 @@ func (w *world) newConsumerWith(parentLogger logger.Logger, decoder base.ChunkDe
 	opt := w.p.opt
 	if w.gen == w.p.gens-1 && w.p.reload == "" {
 		opt = fakeup.Options{} // the last generation talks to a healthy upstream
+	}
+	if w.gen == 0 && w.p.gen0Down {
+		opt = fakeup.Options{AlwaysRefuse: true}
 	}
 	if w.p.reload != "" {
 		if w.reloaded {
@@ -412,13 +417,20 @@ func drive(w *world) explore.Verdict {
 		receiver := bsupport.NewLogParsingReceiver(logger.Root(), createParser, orc,
 			inputMF.AddOrGetPrefix("input_", []string{"protocol"}, []string{"syslog"}))
 
-		// connections feed only in generation 0
+		// connections feed in generation 0 (and, in the backlog scenarios, new ones in generation 1)
 		nconn := 0
-		if g == 0 {
-			nconn = len(p.conns)
+		scripts := p.conns
+		ciBase := 0
+		if g == 1 {
+			scripts = p.conns1
+			ciBase = len(p.conns)
+		}
+		if g <= 1 && len(scripts) > 0 {
+			nconn = len(scripts)
 			w.connDone = make([]bool, nconn)
-			for ci, script := range p.conns {
-				ci, script := ci, script
+			for cidx, script := range scripts {
+				cidx, script := cidx, script
+				ci := ciBase + cidx
 				vsched.Go(fmt.Sprintf("conn%d", ci), func() {
 					sink := receiver.NewSink(fmt.Sprintf("10.0.0.%d:1000", ci+1), base.ClientNumber(10+ci))
 					seqn := 0
@@ -464,9 +476,11 @@ func drive(w *world) explore.Verdict {
 					}
 					sink.Flush()
 					sink.Close()
-					w.connDone[ci] = true
+					w.connDone[cidx] = true
 				})
 			}
+		} else {
+			w.connDone = nil
 		}
 		vsched.WaitUntil("driver.wait-connections", time.Time{}, func() bool {
 			for _, d := range w.connDone {
@@ -999,6 +1013,12 @@ func scenarios(prop string) []*explore.Scenario {
 		P := func(host string) op { return op{kind: "line", app: "appA", host: host, pad: 1100} }
 		f := params{name: "pooled-records-hosts", conns: [][]op{{P("alpha00"), {kind: "settle"}, P("bravo00"), {kind: "settle"}, P("alpha00"), P("charl00"), {kind: "settle"}, P("bravo00")}}, gens: 2, chunkRecs: 1, memCap: 2, opt: full, advances: 1}
 		add(f, 0, 1)
+	}
+	if prop == "C05" || prop == "C01" {
+		// backlog: the upstream is down in generation 0, everything stays queued; after the restart a new connection sends
+		// records of the same key sets while the backlog is being recovered
+		k := params{name: "backlog-then-new-traffic", conns: [][]op{{L("appA"), L("appA"), L("appB")}}, conns1: [][]op{{L("appA"), L("appB")}}, gens: 3, chunkRecs: 1, memCap: 2, gen0Down: true, opt: full, flushAlt: false, advances: 1}
+		add(k, 1, 2)
 	}
 	if prop == "C05" {
 		d := params{name: "2conn-2key-2rec/order", conns: [][]op{{L("appA"), L("appB"), L("appA"), L("appB")}, {L("appA"), L("appB"), L("appA"), L("appB")}}, gens: 2, chunkRecs: 2, memCap: 0, opt: full, flushAlt: true, advances: 1}
